@@ -306,6 +306,23 @@ func checkC18(c *Ctx, r *Report, tier string) {
 	r.Rule("C18.R3", "mutex discipline of the control plane: the may-hold-while-acquiring relation between mutex fields (own frame and callers) has no cycle, and no mutex is re-acquired on the same object while it may already be held (a recursive RLock deadlocks as soon as a writer queues in between)", 2)
 	w := newLockWorld(c)
 	lockOrderRule(c, r, "C18.R3", w, nil)
+	r.Rule("C18.R4", "the loops the control plane depends on keep running and keep their deadlines: no role loop (a function selecting on channels in an endless loop) defers a recover for its whole body; a function that is given a context hands on that context (or one derived from it), never a longer-lived one", 8)
+	{
+		var loops []*ssa.Function
+		for _, f := range prodFuncs(c, "storage", "storage/raft", "cluster") {
+			isLoop := false
+			eachInstr(f, func(i ssa.Instruction) {
+				if s, ok := i.(*ssa.Select); ok && s.Blocking && inCycle(f, i) {
+					isLoop = true
+				}
+			})
+			if isLoop && f.Signature.Results().Len() == 0 {
+				loops = append(loops, f)
+			}
+		}
+		loopsSurvivePanics(c, r, "C18.R4", loops)
+		contextsAreForwarded(c, r, "C18.R4", "storage", "storage/raft")
+	}
 	callers := map[*ssa.Function][]*ssa.Call{}
 	for _, f := range w.fns {
 		eachInstr(f, func(i ssa.Instruction) {
